@@ -585,4 +585,91 @@ theorem runLoop_final (g : Pipe) (fails : Nat → Bool) (ord : List Nat) (ht : T
   intro x
   simp
 
+/-! ## which jobs a `PythonJob.call` depends on -/
+
+/-- a resource whose source is job `s` occurs somewhere in the argument (at any nesting depth; for dicts: among the
+values) -/
+inductive Mentions : Arg → Nat → Prop
+  | res (s : Nat) : Mentions (.res (some s)) s
+  | seq {l : List Arg} {a : Arg} {s : Nat} : a ∈ l → Mentions a s → Mentions (.seq l) s
+  | dict {l : List Arg} {a : Arg} {s : Nat} : a ∈ l → Mentions a s → Mentions (.dict l) s
+
+mutual
+theorem mem_sources : ∀ (a : Arg) (s : Nat), s ∈ a.sources ↔ Mentions a s
+  | .res (some t), s => by
+    rw [Arg.sources, List.mem_singleton]
+    constructor
+    · rintro rfl; exact Mentions.res _
+    · intro h; cases h; rfl
+  | .res none, s => by
+    rw [Arg.sources]
+    constructor
+    · intro h; cases h
+    · intro h; cases h
+  | .seq l, s => by
+    rw [Arg.sources, mem_sourcesList l s]
+    constructor
+    · rintro ⟨a, ha, hm⟩; exact Mentions.seq ha hm
+    · intro h; cases h with | seq ha hm => exact ⟨_, ha, hm⟩
+  | .dict l, s => by
+    rw [Arg.sources, mem_sourcesList l s]
+    constructor
+    · rintro ⟨a, ha, hm⟩; exact Mentions.dict ha hm
+    · intro h; cases h with | dict ha hm => exact ⟨_, ha, hm⟩
+  | .value, s => by
+    rw [Arg.sources]
+    constructor
+    · intro h; cases h
+    · intro h; cases h
+theorem mem_sourcesList : ∀ (l : List Arg) (s : Nat), s ∈ sourcesList l ↔ ∃ a ∈ l, Mentions a s
+  | [], s => by rw [sourcesList]; simp
+  | a :: t, s => by
+    rw [sourcesList, List.mem_append, mem_sources a s, mem_sourcesList t s]
+    constructor
+    · rintro (h | ⟨b, hb, hm⟩)
+      · exact ⟨a, List.mem_cons_self, h⟩
+      · exact ⟨b, List.mem_cons_of_mem _ hb, hm⟩
+    · rintro ⟨b, hb, hm⟩
+      rcases List.mem_cons.1 hb with rfl | hb
+      · exact Or.inl hm
+      · exact Or.inr ⟨b, hb, hm⟩
+end
+
+theorem mem_addDeps (self : Nat) (srcs : List Nat) (s : Nat) : s ∈ addDeps self srcs ↔ s ∈ srcs ∧ s ≠ self := by
+  unfold addDeps; simp [List.mem_filter]
+
+theorem mem_callDeps (self : Nat) (args : List Arg) (kwargs : List (String × Arg)) (s : Nat) :
+    s ∈ callDeps self args kwargs ↔
+      s ≠ self ∧ ((∃ a ∈ args, Mentions a s) ∨ ∃ kv ∈ kwargs, Mentions kv.2 s) := by
+  unfold callDeps
+  rw [mem_addDeps, List.mem_append, mem_sourcesList, mem_sourcesList]
+  constructor
+  · rintro ⟨h, hne⟩
+    refine ⟨hne, ?_⟩
+    rcases h with h | ⟨a, ha, hm⟩
+    · exact Or.inl h
+    · obtain ⟨kv, hkv, rfl⟩ := List.mem_map.1 ha
+      exact Or.inr ⟨kv, hkv, hm⟩
+  · rintro ⟨hne, h⟩
+    refine ⟨?_, hne⟩
+    rcases h with h | ⟨kv, hkv, hm⟩
+    · exact Or.inl h
+    · exact Or.inr ⟨kv.2, List.mem_map.2 ⟨kv, hkv, rfl⟩, hm⟩
+
+theorem mem_jobDeps (self : Nat) (d : JobDecl) (s : Nat) :
+    s ∈ jobDeps self d ↔ s ∈ d.explicit ∨ (s ∈ d.cmdSources ∧ s ≠ self) ∨
+      (s ≠ self ∧ ∃ c ∈ d.calls, (∃ a ∈ c.1, Mentions a s) ∨ ∃ kv ∈ c.2, Mentions kv.2 s) := by
+  unfold jobDeps
+  rw [List.mem_append, List.mem_append, mem_addDeps, List.mem_flatMap]
+  constructor
+  · rintro ((h | h) | ⟨c, hc, h⟩)
+    · exact Or.inl h
+    · exact Or.inr (Or.inl h)
+    · obtain ⟨hne, h⟩ := (mem_callDeps ..).1 h
+      exact Or.inr (Or.inr ⟨hne, c, hc, h⟩)
+  · rintro (h | h | ⟨hne, c, hc, h⟩)
+    · exact Or.inl (Or.inl h)
+    · exact Or.inl (Or.inr h)
+    · exact Or.inr ⟨c, hc, (mem_callDeps ..).2 ⟨hne, h⟩⟩
+
 end HailVerif.BatchOrder
